@@ -1028,6 +1028,19 @@ def _mini_eval(fn: ast.FunctionDef, env: dict, allowed_calls: set[str], max_step
             c.orig = ex
             raise c
 
+    def own_stmts(body):
+        for st in body:
+            if isinstance(st, (ast.FunctionDef, ast.AsyncFunctionDef, ast.ClassDef)):
+                continue
+            yield st
+            for fld in ("body", "orelse", "finalbody"):
+                yield from own_stmts(getattr(st, fld, []) or [])
+            for h in getattr(st, "handlers", []) or []:
+                yield from own_stmts(h.body)
+    # a generator function (statement-level yields only) is evaluated eagerly; its value is the list of what it yields
+    is_gen = local_calls and any(isinstance(st, ast.Expr) and isinstance(st.value, (ast.Yield, ast.YieldFrom)) for st in own_stmts(fn.body))
+    yields: list = []
+
     def store(t, v):
         if isinstance(t, ast.Name):
             env[t.id] = v
@@ -1065,7 +1078,41 @@ def _mini_eval(fn: ast.FunctionDef, env: dict, allowed_calls: set[str], max_step
             if isinstance(st, ast.Expr):
                 if isinstance(st.value, ast.Constant):
                     continue
+                if isinstance(st.value, ast.Yield) and is_gen:          # generators are evaluated eagerly: the yields are collected
+                    yields.append(ev(st.value.value) if st.value.value is not None else None)
+                    continue
+                if isinstance(st.value, ast.YieldFrom) and is_gen:
+                    yields.extend(list(ev(st.value.value)))
+                    continue
                 ev(st.value)
+            elif isinstance(st, ast.FunctionDef) and local_calls and not st.decorator_list and \
+                    not any(isinstance(n, (ast.Nonlocal, ast.Global)) for n in ast.walk(st)):
+                # a nested helper: it sees the enclosing names as they are when it is called (containers are shared, so in-place
+                # updates are visible outside; rebinding an enclosing name is outside the subset)
+                def make(fdef):
+                    params = [a.arg for a in fdef.args.args]
+
+                    def call(*args):
+                        if len(args) != len(params):
+                            raise Crash(f"TypeError: {fdef.name}() takes {len(params)} arguments")
+                        sub = dict(env)
+                        sub.update(zip(params, args))
+                        return _mini_eval(fdef, sub, allowed_calls | {fdef.name}, max_steps=max_steps, local_calls=True)
+                    return call
+                env[st.name] = make(st)
+            elif isinstance(st, ast.Delete):
+                for t in st.targets:
+                    if not isinstance(t, ast.Subscript):
+                        raise EvalError("del of a name")
+                    obj = ev(t.value)
+                    if isinstance(t.slice, ast.Slice):
+                        key = slice(*(ev(x) if x is not None else None for x in (t.slice.lower, t.slice.upper, t.slice.step)))
+                    else:
+                        key = ev(t.slice)
+                    try:
+                        del obj[key]
+                    except Exception as ex:
+                        raise Crash(f"{type(ex).__name__}: {ex}")
             elif isinstance(st, ast.Assign):
                 v = ev(st.value)
                 for t in st.targets:
@@ -1180,8 +1227,8 @@ def _mini_eval(fn: ast.FunctionDef, env: dict, allowed_calls: set[str], max_step
     try:
         run(fn.body)
     except _Ret as r:
-        return r.v
-    return None
+        return yields if is_gen else r.v
+    return yields if is_gen else None
 
 
 class _Obj:
@@ -1479,6 +1526,7 @@ def run(chk: Check):
     rule_t3(chk, C)
     rule_t5(chk, C)
     rule_t6(chk, C)
+    rule_t6_scc(chk)
     from . import gen_determinism
     gen_determinism.run(chk)
     from .c01 import rule_combinators
@@ -1612,3 +1660,98 @@ def module_pure_constants(rel: str, extra: Optional[dict] = None, data_attrs: tu
             except Exception:
                 continue
     return out
+
+
+def rule_t6_scc(chk: Check):
+    """The left-recursion analysis stands on two graph routines of pegen/sccutils.py.  Both are evaluated from source (generators
+    eagerly) on every directed graph over three vertices and a fixed sample of graphs over four, and compared with their definition:
+    the components are the classes of mutual reachability, each vertex in exactly one; the cycles from `start` are the walks inside
+    the component that stop at the first repeated vertex."""
+    R = "T6-first-graph"
+    rel = "pegen/sccutils.py"
+    mod = _parse(rel)
+    funcs = {n.name: n for n in mod.body if isinstance(n, ast.FunctionDef)}
+    scc_fn, cyc_fn = funcs.get("strongly_connected_components"), funcs.get("find_cycles_in_scc")
+    if scc_fn is None or cyc_fn is None:
+        raise AnalysisError("pegen/sccutils.py: strongly_connected_components / find_cycles_in_scc vanished")
+
+    def graphs():
+        for names, masks in ((("a", "b", "c"), range(512)), (("a", "b", "c", "d"), range(0, 65536, 131))):
+            n = len(names)
+            for m in masks:
+                yield names, {names[i]: [names[j] for j in range(n) if m >> (i * n + j) & 1] for i in range(n)}
+
+    def ref_sccs(names, edges):
+        reach = {v: {v} for v in names}
+        changed = True
+        while changed:
+            changed = False
+            for v in names:
+                for w in list(reach[v]):
+                    for x in edges[w]:
+                        if x not in reach[v]:
+                            reach[v].add(x)
+                            changed = True
+        return {frozenset(w for w in names if w in reach[v] and v in reach[w]) for v in names}
+
+    def ref_cycles(edges, scc, start):
+        out = []
+
+        def dfs(node, path):
+            if node in path:
+                out.append(tuple(path + [node]))
+                return
+            for ch in edges[node]:
+                if ch in scc:
+                    dfs(ch, path + [node])
+        dfs(start, [])
+        return sorted(out)
+
+    bad_scc = bad_cyc = None
+    und = ""
+    n_g = n_c = 0
+    try:
+        for names, edges in graphs():
+            n_g += 1
+            want = ref_sccs(names, edges)
+            try:
+                got = _mini_eval(scc_fn, {"vertices": list(names), "edges": {k: list(v) for k, v in edges.items()}}, set(), max_steps=4000,
+                                 local_calls=True)
+                got_l = [frozenset(x) for x in got]
+                verdict = None if (set(got_l) == want and len(got_l) == len(want)) else sorted(sorted(x) for x in got_l)
+            except Crash as e:
+                verdict = f"crash: {e}"
+            if verdict is not None and bad_scc is None:
+                bad_scc = (edges, verdict, sorted(sorted(x) for x in want))
+            if len(names) > 3:
+                continue
+            for scc in want:
+                if len(scc) < 2:
+                    continue
+                for start in sorted(scc):
+                    n_c += 1
+                    try:
+                        got = _mini_eval(cyc_fn, {"graph": {k: set(v) for k, v in edges.items()}, "scc": set(scc), "start": start}, set(),
+                                         max_steps=4000, local_calls=True)
+                        g = sorted(tuple(x) for x in got)
+                        verdict = None if g == ref_cycles(edges, scc, start) else g[:4]
+                    except (Crash, Raised) as e:
+                        verdict = f"crash: {e}"
+                    if verdict is not None and bad_cyc is None:
+                        bad_cyc = (edges, sorted(scc), start, verdict)
+    except EvalError as e:
+        und = str(e)
+    chk.units["scc_graphs_evaluated"] = n_g
+    chk.units["scc_cycle_queries_evaluated"] = n_c
+    for key, fn, bad, what in (("strongly_connected_components", scc_fn, bad_scc,
+                                "the components must be the classes of mutual reachability, each vertex in exactly one (a back edge to a "
+                                "vertex k path segments down merges all k): (graph, here, expected)"),
+                               ("find_cycles_in_scc", cyc_fn, bad_cyc,
+                                "the cycles from `start` must be the walks inside the component up to the first repeated vertex: "
+                                "(graph, component, start, here)")):
+        chk.count(R)
+        if und:
+            chk.undecided(R, f"sccutils.{key}", f"{rel}:{fn.lineno}", f"not evaluable: {und}")
+        else:
+            chk.require(bad is None, R, f"sccutils.{key}", f"{rel}:{fn.lineno}", f"{what} {bad} — a left-recursive cycle of three or more "
+                        f"rules would be split, and its members lose the leader/memo treatment")
